@@ -5,8 +5,8 @@ import os
 
 BASE = "/verif/seeded"
 print("| seeded change | written for | target check, final pass (quick tier) | other checks that caught it (intake / earlier pass) | "
-      "target check when the change was delivered |")
-print("|---|---|---|---|---|")
+      "target check when the change was delivered | final pass made at /verif commit |")
+print("|---|---|---|---|---|---|")
 n = ok = 0
 for d in sorted(os.listdir(BASE)):
     p = os.path.join(BASE, d, "meta.json")
@@ -14,7 +14,7 @@ for d in sorted(os.listdir(BASE)):
         continue
     m = json.load(open(p))
     if m.get("retired"):
-        print("| %s | %s | retired: %s | - | caught |" % (d, m.get("breaks"), m["retired"][:160] + " ..."))
+        print("| %s | %s | retired: %s | - | caught | - |" % (d, m.get("breaks"), m["retired"][:160] + " ..."))
         continue
     tgt = m.get("breaks", "?")
     ft = m.get("final_target_check")
@@ -33,6 +33,7 @@ for d in sorted(os.listdir(BASE)):
         note = "caught" if fv.get("caught") else "MISSED -> strengthened (see above)"
     n += 1
     ok += 1 if t_ok else 0
-    print("| %s | %s | %s | %s | %s |" % (d, tgt, "caught" if t_ok else "MISSED", ", ".join(others) or "-", note))
+    at = (ft or final or {}).get("verif_commit", "?")
+    print("| %s | %s | %s | %s | %s | %s |" % (d, tgt, "caught" if t_ok else "MISSED", ", ".join(others) or "-", note, at))
 print()
 print("%d seeded changes, %d caught by the check they were written for in the final pass." % (n, ok))
